@@ -10,6 +10,74 @@ fn usage() -> ! {
     std::process::exit(3);
 }
 
+/// Runs the check in a child process. If that process is killed by a signal or aborts
+/// (stack overflow, allocation failure: events `catch_unwind` cannot see), the cases that were
+/// in flight according to its journal are re-run one by one in isolation to name the culprit.
+fn supervise(ctx: &Ctx, args: &[String]) -> i32 {
+    use std::os::unix::process::ExitStatusExt;
+    use verif_harness::child::{self, ChildOutcome};
+    let exe = std::env::current_exe().expect("current exe");
+    let scratch = child::scratch_dir();
+    let journal = scratch.join("journal.txt");
+    let _ = std::fs::remove_file(&journal);
+    let status = std::process::Command::new(&exe)
+        .args(&args[1..])
+        .env("VERIF_INNER", "1")
+        .env("VERIF_JOURNAL", &journal)
+        .env("VERIF_SCRATCH", &scratch)
+        .status();
+    let status = match status {
+        Ok(s) => s,
+        Err(e) => {
+            println!("INCONCLUSIVE property={} reason=cannot-spawn-inner-process:{}", ctx.id, e);
+            let _ = std::fs::remove_dir_all(&scratch);
+            return 2;
+        }
+    };
+    if let Some(code) = status.code() {
+        if code == 0 || code == 1 || code == 2 || code == 3 {
+            let _ = std::fs::remove_dir_all(&scratch);
+            return code;
+        }
+    }
+    // abnormal end
+    let (finished, open) = child::journal_read(&journal);
+    println!(
+        "inner check process ended abnormally (signal {:?}, code {:?}); {} cases finished, {} in flight: re-running those in isolation",
+        status.signal(), status.code(), finished, open.len()
+    );
+    let mut report = Report::new();
+    report.evaluations = finished;
+    report.distinct_extra = finished;
+    report.rule = "fallback after an abnormal end of the monitored process: journal of finished cases; the in-flight cases were re-run in isolated child processes".into();
+    for (key, case) in open.iter().take(48) {
+        report.evaluations += 1;
+        match child::run_case(&exe, &ctx.id, case, 16 << 20, std::time::Duration::from_secs(600)) {
+            ChildOutcome::Reported(doc) => child::merge_child_report(&mut report, &doc, ""),
+            ChildOutcome::Crashed { signal, code, stack_overflow, stderr_tail } => {
+                let kind = if stack_overflow { "stack-overflow".to_string() } else { format!("abort(signal={:?},code={:?})", signal, code) };
+                report.violate(
+                    format!("{}:{}", key, kind),
+                    format!("case {} kills the process: {} [{}]", key, kind, stderr_tail),
+                    case.clone(),
+                );
+            }
+            ChildOutcome::Timeout { after_s } => report.inconclusive(format!("isolated re-run of {} timed out after {:.0}s", key, after_s)),
+            ChildOutcome::SpawnFailed(e) => report.inconclusive(format!("cannot re-run {}: {}", key, e)),
+        }
+        report.sample(Json::obj().set("in_flight_case", Json::str(key.clone())));
+    }
+    if report.violations.is_empty() && report.inconclusive.is_empty() {
+        report.inconclusive(format!("the monitored process died (signal {:?}, code {:?}) but no in-flight case reproduces it in isolation", status.signal(), status.code()));
+    }
+    if report.samples.is_empty() {
+        report.sample(Json::obj().set("note", Json::str("no case was in flight")));
+    }
+    let code = finish(ctx, report);
+    let _ = std::fs::remove_dir_all(&scratch);
+    code
+}
+
 fn main() {
     verif_harness::util::install_panic_recorder();
     let args: Vec<String> = std::env::args().collect();
@@ -47,6 +115,10 @@ fn main() {
                 i += 1;
             }
             let ctx = Ctx::new(&id, tier, seed);
+            if std::env::var("VERIF_INNER").is_err() {
+                std::process::exit(supervise(&ctx, &args));
+            }
+            verif_harness::child::journal_open();
             let report = match checks::run(&ctx) {
                 Some(r) => r,
                 None => {
